@@ -2,6 +2,8 @@
 From Coq Require Import List.
 Require Import Fggs.Model.Semiring Fggs.Model.SumProduct Fggs.Model.EReal Fggs.Model.CrossSemiring
                Fggs.Proofs.Homomorphism.
+Require Import Fggs.Model.SCC Fggs.Proofs.SP_driver Fggs.Proofs.Instances_cross.
+Import ListNotations.
 
 (** a semiring homomorphism commutes with every Kleene iterate of the sum-product *)
 Theorem C11_homomorphism_commutes :
@@ -20,9 +22,47 @@ Theorem C11_bool_is_support_of_real :
 Proof. exact supp_Zk. Qed.
 Print Assumptions C11_bool_is_support_of_real.
 
-(** Viterbi (max-times in the exp reading) never exceeds Real/Log (plus-times) *)
+(** Viterbi (max-times in the exp reading) never exceeds Real/Log (plus-times); no premise: the
+    law records of [ereal_ops] are proved in Proofs/SemiringLaws.v (C08) *)
 Theorem C11_viterbi_le_log :
-  sr_ring ereal_ops -> sr_ordered ereal_ops ->
   forall G w k X xi, ele (Zk maxtimes_ops G w k X xi) (Zk ereal_ops G w k X xi).
-Proof. exact maxtimes_le_plustimes. Qed.
+Proof. exact maxtimes_le_plustimes_closed. Qed.
 Print Assumptions C11_viterbi_le_log.
+
+(** * the same relations at the level of what the check functions evaluate *)
+(** the tables [Ztab] (the specification [sp_check] tabulates): the Boolean table is the
+    support of the Real table, the max-times table is below the plus-times table, cell by cell *)
+Theorem C11_bool_is_support_of_real_Ztab :
+  forall G W k X xi,
+    wf_grammar G = true -> is_term G X = false -> In xi (all_assts (lshape G X)) ->
+    env_of bool_ops (Ztab bool_ops G (fun l idx => supp (W l idx)) k) X xi
+    = supp (env_of ereal_ops (Ztab ereal_ops G W k) X xi).
+Proof. exact supp_Ztab. Qed.
+Print Assumptions C11_bool_is_support_of_real_Ztab.
+
+Theorem C11_viterbi_le_log_Ztab :
+  forall G W k X xi,
+    wf_grammar G = true -> is_term G X = false -> In xi (all_assts (lshape G X)) ->
+    ele (env_of maxtimes_ops (Ztab maxtimes_ops G W k) X xi) (env_of ereal_ops (Ztab ereal_ops G W k) X xi).
+Proof. exact maxtimes_le_plustimes_Ztab. Qed.
+Print Assumptions C11_viterbi_le_log_Ztab.
+
+(** [tmt_supp w]: the weight table of the Boolean run = the support of every cell of [w] *)
+Theorem C11_support_weights :
+  forall w l idx, env_of bool_ops (tmt_supp w) l idx = supp (env_of ereal_ops w l idx).
+Proof. exact env_of_tmt_supp. Qed.
+Print Assumptions C11_support_weights.
+
+(** the code-shaped driver (composition with C01, C08, C19): for a well-formed grammar, with the
+    component order computed by the Tarjan model, if it passes [nonrecursive_order] (iff the
+    grammar is non-recursive), the Boolean run on the supports of the weights returns the support
+    of every entry of the Real run *)
+Theorem C11_bool_is_support_of_real_sum_products :
+  forall G w order X xi,
+    wf_grammar G = true -> (forall l, tget w l <> None -> is_term G l = true) ->
+    scc (nt_graph G) = Some order -> nonrecursive_order G order = true ->
+    is_term G X = false -> In xi (all_assts (lshape G X)) ->
+    env_of bool_ops (sum_products_nonrec bool_ops G (tmt_supp w) order) X xi
+    = supp (env_of ereal_ops (sum_products_nonrec ereal_ops G w order) X xi).
+Proof. exact supp_sum_products_nonrec. Qed.
+Print Assumptions C11_bool_is_support_of_real_sum_products.
